@@ -25,6 +25,10 @@ def common_pipeline_checks(report: Report, events, it, cons: str, label: str) ->
             report.add("R1-dtype-typestate", f"{cons}::view(float32)", frm == "torch.int32", f"{label}: .view(torch.float32) must reinterpret the int32 pattern", str(frm), "torch.int32", where=e.where, nontrivial=False)
     kinds = {str(e["to_dtype"]) for e in casts}
     report.add("R1-dtype-typestate", f"{cons}::bitcasts", {"torch.int32", "torch.float32"} <= kinds, f"{label}: the pipeline reinterprets to int32 and back to float32", sorted(kinds), ["torch.float32", "torch.int32"], nontrivial=False)
+    # no control flow / assertion on tensor *values*: the result is a fixed elementwise pipeline for every input
+    # (a reduction such as max() in a guard also raises on the empty tensors the property includes)
+    dt = [e for e in events if e.kind == "data-truth"]
+    report.add("R3-pipeline", f"{cons}::value-independent-control", not dt, f"{label}: no branch or assert depends on tensor values" + ("; offending: " + "; ".join(f"{fmt(e['value'])[:80]} at {e.where}" for e in dt) if dt else ""), [fmt(e["value"])[:80] for e in dt], [], nontrivial=False)
     # R2 argument not modified
     bad = [e for e in events if e.kind == "inplace" and e.get("alias")]
     report.add("R2-no-mutation", f"{cons}::inplace", not bad, f"{label}: no in-place operation on a value that may alias the argument" + ("; offending: " + ", ".join(f"{e['op']} at {e.where}" for e in bad) if bad else ""), [e["op"] for e in bad], "none")
